@@ -246,6 +246,15 @@ def mon_c14(k, domain, bind_port=None, wildcard=False):
                              {"time_us": ev[0], "datagram": d.hex()[:600]}))
                 continue
             pend[key] = n - 1
+            if labels and labels[0][:1].lower() == b"v":
+                # a version handshake that hands out a slot re-initialises it: whatever was being held back for the
+                # slot's previous occupant is dropped (never answered), it is no longer "held"
+                try:
+                    vp = proto.extract_payload(m)
+                    if vp[:4] == b"VACK" and len(vp) >= 9:
+                        held.pop(vp[8], None)
+                except (proto.ParseError, proto.Undecodable, IndexError, struct.error):
+                    pass
             ql = tuple(l.lower() for l in labels)
             # a name that has been answered once is no longer "held back", even if further identical
             # copies of it (absorbed duplicates) never get an answer of their own
@@ -297,6 +306,13 @@ class _Down:
         self.started = False
 
 
+def _slot_of_name(labels, dl):
+    """The userid a ping/data query name addresses (None when it is not one)."""
+    text = b"".join(labels[:len(labels) - len(dl)]) if len(labels) > len(dl) else b""
+    tk = _tunnel_kind(labels[0], text) if labels else None
+    return tk[1] if tk else None
+
+
 def mon_c15(k, domain, wildcard=False):
     """Downstream data answers: payload <= negotiated fragment size; fragments numbered from 0
     consecutively; last flag exactly at the true end of a frame that was offered."""
@@ -343,6 +359,9 @@ def mon_c15(k, domain, wildcard=False):
         if c == b"v":
             if p[:4] == b"VACK" and len(p) >= 9:
                 users[p[8]] = _Down()
+                # a new session starts on this slot: answers remembered for its previous occupant are gone, so an
+                # old name arriving again is an ordinary query of the new session, judged like any other
+                answered = {a for a in answered if _slot_of_name(a[0], dl) != p[8]}
             continue
         if c == b"n":
             raw = proto.BASE32.decode(text[1:])
